@@ -7,8 +7,10 @@ test -f /opt/veriftools/tla/tla2tools.jar
 test -x /venv/bin/python
 test -d "${VERIF_REPO:-/repo}/bronzebeard"
 cd spec
+T=$(mktemp -d)          # SANY unpacks its standard modules into java.io.tmpdir on every run: keep that inside a directory removed below
+trap 'rm -rf "$T" /tmp/sany.$$' EXIT
 for f in *.tla; do
-  java -cp /opt/veriftools/tla/tla2tools.jar:/opt/veriftools/tla/CommunityModules-deps.jar tla2sany.SANY "$f" > /tmp/sany.$$ 2>&1 || { cat /tmp/sany.$$; rm -f /tmp/sany.$$; exit 1; }
+  java -Djava.io.tmpdir="$T" -cp /opt/veriftools/tla/tla2tools.jar:/opt/veriftools/tla/CommunityModules-deps.jar tla2sany.SANY "$f" > /tmp/sany.$$ 2>&1 || { cat /tmp/sany.$$; rm -f /tmp/sany.$$; exit 1; }
   if grep -q -i "^\*\*\* Errors\|Parsing or semantic analysis failed\|Fatal errors" /tmp/sany.$$; then cat /tmp/sany.$$; rm -f /tmp/sany.$$; exit 1; fi
 done
 rm -f /tmp/sany.$$
